@@ -21,7 +21,7 @@
    named at the theorems; time tags: C10_timetag_... (model, calendar, fraction). *)
 From Coq Require Import List ZArith.
 From RtoscV Require Import Pretty.Tok Pretty.FloatFmt Pretty.PrintModel Pretty.ScanModel
-  Pretty.PrettyProofs Pretty.FloatProofs Pretty.SymBlobProofs Pretty.RangeProofs Pretty.RunProofs Pretty.ListProofs Pretty.ArrayProofs Pretty.MixedProofs Pretty.MixedPrint Pretty.TotalProofs Pretty.TimeFmt Pretty.TimeProofs Pretty.TimeTokProofs Pretty.PrettyRegress.
+  Pretty.PrettyProofs Pretty.FloatProofs Pretty.SymBlobProofs Pretty.RangeProofs Pretty.RunProofs Pretty.ListProofs Pretty.ArrayProofs Pretty.MixedProofs Pretty.MixedPrint Pretty.TotalProofs Pretty.TimeFmt Pretty.TimeProofs Pretty.TimeTokProofs Pretty.TimeSkipProofs Pretty.TimeFracProofs Pretty.TimeFracSkipProofs Pretty.TimeTokofProofs Pretty.PrettyRegress.
 Import ListNotations.
 Local Open Scope Z_scope.
 
@@ -330,11 +330,24 @@ Proof. exact float_list_example. Qed.
      and one above 0xffffff7f becomes "0x1p+0", which the checker rejects:
      outside the quantifier, see notes/C10.md;
    - so the value of a time tag is rebuilt from what the printer writes.
-   Text level: C10_timetag_token_whole_seconds - the scanner's date branch reads the
-   printed text of EVERY time tag of whole seconds (all three strftime formats)
-   back to that time tag and stops behind it.  NOT proved: the same for a time tag
-   with a fraction (".dd (...+0x1p-1s)") and for the checker's skip_date (shown for
-   the examples below by computation, and tied). *)
+   Text level (Pretty/TimeTokProofs, TimeSkipProofs, TimeFracProofs, TimeFracSkipProofs,
+   TimeTokofProofs), for EVERY 32-bit number of seconds:
+   - whole seconds, all three strftime formats: the scanner's date branch
+     (C10_timetag_token_whole_seconds) and the checker's (C10_timetag_skip_whole_seconds)
+     read the printed text back and stop behind it, whatever follows that is not a
+     continuation of the token;
+   - with a fraction that fits a float, lossless option
+     ("... hh:mm:ss.dd (...+0x1.8p-3s)"): C10_timetag_token_fraction,
+     C10_timetag_skip_fraction - the value comes from the hexadecimal float, exactly;
+   - so the printed text is a TOKEN of the whole-function recognisers
+     (C10_timetag_tokof_clock: whole seconds with a clock time other than 00:00:00;
+     C10_timetag_tokof_fraction), and a text of such tokens and the other proved
+     tokens, with any white space between them, is counted and scanned back
+     (C10_linebreak_transparent; C10_timetag_in_list).
+   NOT proved: a date standing alone (midnight) as a token of `lang` (it is one only
+   where no "hh:mm" follows: the side condition of C10_timetag_token_whole_seconds);
+   time tags inside the printer-side list theorems (good_val has no VTm case: tied);
+   a fraction without the lossless option (the decimal digits are not exact). *)
 Theorem C10_timetag_calendar : forall s, 0 <= s < 2 ^ 32 ->
   let '(y, mo, d, h, mi, se) := date_of_secs s in
   secs_of_date y mo d h mi se = s /\
@@ -357,11 +370,51 @@ Theorem C10_timetag_token_whole_seconds : forall (dec2f : list Z -> Z) o secs re
   scan_date dec2f (print_timetag o (secs * 2 ^ 32) ++ rest) = Ok ([VTm (secs * 2 ^ 32)], rest).
 Proof. exact timetag_token_whole_seconds. Qed.
 
+Theorem C10_timetag_skip_whole_seconds : forall o secs rest,
+  0 <= secs < 2 ^ 32 -> tt_rest_ok_skip rest ->
+  let text := print_timetag o (secs * 2 ^ 32) ++ rest in
+  same_pos (skip_fmt fmt_date text) text = false /\
+  skip_date (skip_fmt fmt_date text) = Ok (rest, 1, 116).
+Proof. exact timetag_skip_whole_seconds. Qed.
+
 (* what may follow the token: the end of the text, a following value, a closing
    bracket, an ellipsis *)
 Theorem C10_timetag_token_nonvacuous :
-  tt_rest_ok [] /\ tt_rest_ok [32; 49; 50] /\ tt_rest_ok [93] /\ tt_rest_ok [32; 46; 46; 46; 32].
-Proof. exact tt_rest_ok_examples. Qed.
+  (tt_rest_ok [] /\ tt_rest_ok [32; 49; 50] /\ tt_rest_ok [93] /\ tt_rest_ok [32; 46; 46; 46; 32]) /\
+  (tt_rest_ok_skip [] /\ tt_rest_ok_skip [32; 49; 50] /\ tt_rest_ok_skip [93] /\ tt_rest_ok_skip [32; 46; 46; 46; 32]).
+Proof. exact (conj tt_rest_ok_examples tt_rest_ok_skip_examples). Qed.
+
+Theorem C10_timetag_token_fraction : forall (dec2f : list Z -> Z) o secs sf rest,
+  lossless o = true -> 0 <= secs < 2 ^ 32 -> frac_fits_float sf -> secs * 2 ^ 32 + sf <> 1 ->
+  scan_date dec2f (print_timetag o (secs * 2 ^ 32 + sf) ++ rest) = Ok ([VTm (secs * 2 ^ 32 + sf)], rest).
+Proof. exact timetag_token_fraction. Qed.
+
+Theorem C10_timetag_skip_fraction : forall o secs sf rest,
+  lossless o = true -> 0 <= secs < 2 ^ 32 -> frac_fits_float sf -> secs * 2 ^ 32 + sf <> 1 ->
+  let text := print_timetag o (secs * 2 ^ 32 + sf) ++ rest in
+  same_pos (skip_fmt fmt_date text) text = false /\
+  skip_date (skip_fmt fmt_date text) = Ok (rest, 1, 116).
+Proof. exact timetag_skip_fraction. Qed.
+
+Theorem C10_timetag_fraction_nonvacuous :
+  frac_fits_float (2 ^ 31) /\ 0 <= 1479144390 < 2 ^ 32 /\ 1479144390 * 2 ^ 32 + 2 ^ 31 <> 1.
+Proof. exact timetag_token_fraction_nonvacuous. Qed.
+
+Theorem C10_timetag_tokof_clock : forall (dec2f dec2d : list Z -> Z) o secs,
+  0 <= secs < 2 ^ 32 -> secs mod 86400 <> 0 ->
+  tokof dec2f dec2d (VTm (secs * 2 ^ 32)) (print_timetag o (secs * 2 ^ 32)).
+Proof. exact timetag_tokof_clock. Qed.
+
+Theorem C10_timetag_tokof_fraction : forall (dec2f dec2d : list Z -> Z) o secs sf,
+  lossless o = true -> 0 <= secs < 2 ^ 32 -> frac_fits_float sf -> secs * 2 ^ 32 + sf <> 1 ->
+  tokof dec2f dec2d (VTm (secs * 2 ^ 32 + sf)) (print_timetag o (secs * 2 ^ 32 + sf)).
+Proof. exact timetag_tokof_fraction. Qed.
+
+(* 1 <line break> 2016-11-14 17:26 <tab> 2016-11-14 17:26:30.38 (...+0x1.8p-2s) true *)
+Theorem C10_timetag_in_list : forall (dec2f dec2d : list Z -> Z),
+  lang dec2f dec2d [VI 1; VTm ex_t1; VTm ex_t2; VT]
+       ([49] ++ nl4 ++ print_timetag ex_o ex_t1 ++ [9] ++ print_timetag ex_o ex_t2 ++ [32] ++ kw_true).
+Proof. exact timetag_in_list. Qed.
 
 (* immediately, 2016-11-14, 2016-11-14 17:26, 2016-11-14 17:26:30,
    2016-11-14 17:26:30.50 (...+0x1p-1s), 2106-02-07 06:28:15.00 (...+0x1.8p-23s), 12 *)
